@@ -66,7 +66,9 @@ func HC01Offset() {
 	}
 	raw := vBytes("raw", 0, maxN)
 	limit := vUint32("limit")
+	vWatch(raw)
 	r := n.detector(raw, limit)
+	vAssert(vWritten() == 0, "input-not-written")
 	vNote("node", n.mime)
 	vNote("verdict", r)
 	vReach("end")
@@ -85,7 +87,9 @@ func HC01Node() {
 	N := lens[vChoice("len", len(lens))]
 	raw := vBytes("raw", N, N)
 	limit := vUint32("limit")
+	vWatch(raw)
 	r := n.detector(raw, limit)
+	vAssert(vWritten() == 0, "input-not-written")
 	vNote("node", n.mime)
 	vNote("verdict", r)
 	vReach("end")
@@ -100,7 +104,9 @@ func HC01Scanner() {
 	maxN := vChoice("maxlen", 4300)
 	raw := vBytes("raw", 0, maxN)
 	limit := vUint32("limit")
+	vWatch(raw)
 	r := n.detector(raw, limit)
+	vAssert(vWritten() == 0, "input-not-written")
 	vNote("node", n.mime)
 	vNote("verdict", r)
 	vReach("end")
